@@ -13,9 +13,20 @@ macro_rules! witness {
     };
 }
 
-/// assertion sets of the Push-VM harnesses, selected per property (C01 / C02 / C03)
+/// assertion sets of the Push-VM harnesses, selected per property (C01 / C02 / C03).  In a build for
+/// another property the C01 conditions are *assumed* instead (the states consistent with C01 are the
+/// ones C02 / C03 are asked about; it also keeps the formulas as small as in the C01 build -- without
+/// it the Swap harnesses need > 11 GB).  A build in which the assumption cuts every path is caught by
+/// the reachability witness at the end of each harness.
 #[macro_export]
-macro_rules! a01 { ($c:expr, $m:literal) => { #[cfg(feature = "a01")] assert!($c, $m); }; }
+macro_rules! a01 {
+    ($c:expr, $m:literal) => {
+        #[cfg(feature = "a01")]
+        assert!($c, $m);
+        #[cfg(all(kani, not(feature = "a01")))]
+        kani::assume($c);
+    };
+}
 #[macro_export]
 macro_rules! a02 { ($c:expr, $m:literal) => { #[cfg(feature = "a02")] assert!($c, $m); }; }
 #[macro_export]
